@@ -445,7 +445,12 @@ func (ck *Check) stopCensus(rule string, fns []*ssa.Function) {
 				continue
 			}
 			n++
-			ck.fail(rule, fmt.Sprintf("exit:%s/%s", funcID(fn), f.Name()), ck.P.instrPos(ci), funcID(fn), "only the documented not-in-group condition stops the controller from inside a scan", f.String(), "a process exit is reachable from RunOnce: "+strings.Join(ck.P.chain(a.RunOnce, fn), " → "))
+			// named by role where the function has one, so that a rename is not a new finding
+			where := funcID(fn)
+			if fn == a.AwsTerminateOrphans {
+				where = "<orphan-terminator>"
+			}
+			ck.fail(rule, fmt.Sprintf("exit:%s/%s", where, f.Name()), ck.P.instrPos(ci), funcID(fn), "only the documented not-in-group condition stops the controller from inside a scan", f.String(), "a process exit is reachable from RunOnce: "+strings.Join(ck.P.chain(a.RunOnce, fn), " → "))
 		}
 	}
 	ck.Stats[rule+" exit calls reachable"] = n
